@@ -77,6 +77,14 @@ Theorem C05_model_cancel_once :
     ((j < i)%nat -> nth_error ex j = Some lj -> In m lj -> nth_error ex i = Some li -> In m li ->
      ~ mno_session_between ops j i).
 Proof. exact MdlCancelOnce.model_cancel_once. Qed.
+(** ... and without any restriction on the history (refresh, world changes, queries of external inputs) *)
+Theorem C05_model_cancel_once_all :
+  forall p ops i j m lj li,
+    let ex := mexecs_cancel_f fuel0 4000 p init_state ops in
+    (nth_error ex i = Some li -> NoDup li) /\
+    ((j < i)%nat -> nth_error ex j = Some lj -> In m lj -> nth_error ex i = Some li -> In m li ->
+     ~ mno_session_between ops j i).
+Proof. exact MdlCancelOnce.model_cancel_once_all. Qed.
 (** the side condition is exactly the request premises of the soundness induction, which that
     induction establishes at every call site of [query_for] (one lemma per site in MdlSites.v) *)
 Theorem C05_model_side_condition_is_the_induction_premise : forall p stk c n s,
@@ -100,4 +108,5 @@ Print Assumptions C05_model_cancel_sound_any_task_order.
 Print Assumptions C05_model_cancel_user_step_is_step.
 Print Assumptions C05_model_cancel_side_condition_needed.
 Print Assumptions C05_model_cancel_once.
+Print Assumptions C05_model_cancel_once_all.
 Print Assumptions C05_model_side_condition_is_the_induction_premise.
